@@ -141,7 +141,7 @@ theorem C01_sys_independent_of_declaration_order (cfg : SysConfig) (asts : Name 
     rw [C01_deliver_eq_spec _ hv', C01_deliver_eq_spec _ h.valid] at e
     exact Option.some.inj e
   have hwf' : SysWF cfg' asts :=
-    { valid := hv', cc := h.cc, us := h.us, dcp := h.dcp, mdc := h.mdc,
+    { valid := hv', cc := h.cc, us := h.us, dcp := h.dcp, mdc := h.mdc, mdcE := h.mdcE,
       printed := fun a ha => h.printed a (h2.mem_iff.mpr ha),
       wf := fun a ha => h.wf a (h2.mem_iff.mpr ha) }
   have hd' : ∀ r ∈ rs, DatesOkFor cfg' asts r := by
@@ -217,6 +217,7 @@ example : SysWF exCfg exAsts where
   us := rfl
   dcp := rfl
   mdc := rfl
+  mdcE := rfl
   printed := by
     intro a ha _
     simp only [exCfg, exRouting, List.mem_cons, List.not_mem_nil, or_false] at ha
